@@ -16,9 +16,17 @@ pub struct Ctx {
     pub rep: Report,
     pub journal: Journal,
     pub scratch: String,
+    pub clock: std::time::Instant,
 }
 
 impl Ctx {
+    /// wall time since the previous lap, accumulated per section (maximum over shards after merging is not
+    /// meaningful; the sum over shards is CPU time)
+    pub fn lap(&mut self, section: &str) {
+        let ms = self.clock.elapsed().as_millis() as u64;
+        self.clock = std::time::Instant::now();
+        self.rep.count(&format!("cpu_ms.{section}"), ms);
+    }
     pub fn thorough(&self) -> bool {
         self.tier == Tier::Thorough
     }
